@@ -12,4 +12,15 @@ U09q == <<".", "a", "ab", "b", "d", "d/a", "e">>
 P09q == [p \in {".", "a", "ab", "b", "d", "d/a", "e"} |-> IF p = "d/a" THEN "d" ELSE "."]
 U11 == <<".", "d", "d/f", "f", "l", "ro", "ro/f">>
 P11 == [p \in {".", "d", "d/f", "f", "l", "ro", "ro/f"} |-> IF p = "d/f" THEN "d" ELSE IF p = "ro/f" THEN "ro" ELSE "."]
+
+U13 == <<".", "a", "b", "c", "d", "d/a", "d/b", "d/e", "d/e/a">>
+P13 == [p \in {".", "a", "b", "c", "d", "d/a", "d/b", "d/e", "d/e/a"} |-> IF p \in {"d/a", "d/b", "d/e"} THEN "d" ELSE IF p = "d/e/a" THEN "d/e" ELSE "."]
+U14 == <<".", "d", "d/f", "dev", "f", "k", "l", "z">>
+P14 == [p \in {".", "d", "d/f", "dev", "f", "k", "l", "z"} |-> IF p = "d/f" THEN "d" ELSE "."]
+U01 == <<".", "a", "b", "d", "d/a">>
+P01 == [p \in {".", "a", "b", "d", "d/a"} |-> IF p = "d/a" THEN "d" ELSE "."]
+(* last path component of every path used in any universe *)
+BaseAll == [p \in {".", "a", "ab", "b", "c", "d", "d/a", "d/b", "d/c", "d/e", "d/e/a", "d/f", "e", "e/a", "f", "l", "ro", "ro/f", "s", "x", "x/f", "y", "z", "k", "d/l", "dev"} |->
+   CASE p \in {"d/a", "d/e/a", "e/a"} -> "a" [] p = "d/b" -> "b" [] p = "d/c" -> "c" [] p = "d/e" -> "e"
+     [] p \in {"d/f", "ro/f", "x/f"} -> "f" [] p = "d/l" -> "l" [] OTHER -> p]
 =============================================================================
